@@ -1,8 +1,8 @@
 import HsVerif.Proofs.ReplicaVM
 /-!
 Progress of the view synchronizer (used by C05): a sync info that the verifier accepts with a
-certified view at or above the replica's current view always moves the replica to the next view
-(`advanceView` has no other way out), and remembers its timeout certificate.
+certified view `w` at or above the replica's current view always moves the replica to view `w + 1`
+(`EnterViewAfter`; `advanceView` has no other way out), and remembers its timeout certificate.
 -/
 open Std.Do
 set_option mvcgen.warning false
@@ -65,9 +65,9 @@ theorem createAndPropose_view (k : Keys) (c : RCfg) (si : SyncInfo) (v : Nat) :
   view_of_ap _ (createAndPropose_ap k c si) v
 
 /-- **Synchronizer progress**: a sync info accepted with a certified view `w ≥` the current view
-moves the replica from view `v` to view `v + 1`. -/
+moves the replica from view `v` to view `w + 1` (the view after the certificate's). -/
 theorem advanceView_progress (k : Keys) (c : RCfg) (si : SyncInfo) (v w : Nat) (hw : v ≤ w) :
-    ⦃fun s => ⌜s.view = v ∧ Accepts k c si s w⌝⦄ advanceView k c si ⦃⇓ _ s => ⌜s.view = v + 1⌝⦄ := by
+    ⦃fun s => ⌜s.view = v ∧ Accepts k c si s w⌝⦄ advanceView k c si ⦃⇓ _ s => ⌜s.view = w + 1⌝⦄ := by
   mvcgen [advanceView, verifySyncInfo_accepts, getBlock_view, addEvent_view, emit_view, createAndPropose_view]
   all_goals simp_all +zetaDelta
   all_goals omega
